@@ -811,3 +811,21 @@ add('C02.new_tensor_static_one', 'C02', (TU, "  new_tensor = schema_py_generated
 add('C02.twin_copy_signature', 'C02', ('transformations/quant_insert.py', "  new_tensor_id = transformation_utils.add_new_activation_tensor(\n      tensor.name + b'_quantized',\n      tensor.shape,\n      schema_py_generated.TensorType.FLOAT32,\n      transformation_input.subgraph,\n  )\n",
     "  new_tensor_id = transformation_utils.add_new_activation_tensor(\n      tensor.name + b'_quantized',\n      tensor.shape,\n      schema_py_generated.TensorType.FLOAT32,\n      transformation_input.subgraph,\n  )\n  transformation_input.subgraph.tensors[new_tensor_id].shapeSignature = tensor.shapeSignature\n"),
     (), 'the new tensor also carries the shape signature of its source: shapes unchanged', kind='twin')
+
+# the op-id maps as numpy arrays (seeded b12-C19: one padded 2-d array + searchsorted)
+TP = 'transformation_performer.py'
+_MAPS_OLD = (
+    "    for subgraph in tflite_model.subgraphs:\n      self._original_op_id_map.append(list(range(len(subgraph.operators))))\n      self._added_op_id_map.append([])\n",
+    "    np_op_id_map = np.array(self._original_op_id_map[subgraph_id])\n    np_op_id_map[original_op_id:] += num_ops_added\n    self._original_op_id_map[subgraph_id] = np_op_id_map.tolist()\n",
+    "    op_id_map = self._original_op_id_map[subgraph_id]\n    for original_op_id, current_position in enumerate(op_id_map):\n      if current_position >= op_position:\n        return original_op_id\n    return len(op_id_map)\n",
+)
+add('C19.padded_map_searchsorted', 'C19', [
+    (TP, _MAPS_OLD[0], "    num_ops = [len(subgraph.operators) for subgraph in tflite_model.subgraphs]\n    self._original_op_id_map = np.full((len(num_ops), max(num_ops, default=0)), -1, dtype=np.int64)\n    for subgraph_id, subgraph_num_ops in enumerate(num_ops):\n      self._original_op_id_map[subgraph_id, :subgraph_num_ops] = np.arange(subgraph_num_ops)\n      self._added_op_id_map.append([])\n"),
+    (TP, _MAPS_OLD[1], "    self._original_op_id_map[subgraph_id, original_op_id:] += num_ops_added\n"),
+    (TP, _MAPS_OLD[2], "    return int(np.searchsorted(self._original_op_id_map[subgraph_id], op_position))\n"),
+], ('C19.R11', 'C19.R13'), 'one 2-d op-id map padded with -1 and a binary search on the padded row: subgraphs shorter than the longest one are rewritten wrongly (seeded b12-C19)')
+add('C19.twin_array_maps', 'C19', [
+    (TP, _MAPS_OLD[0], "    for subgraph in tflite_model.subgraphs:\n      self._original_op_id_map.append(np.arange(len(subgraph.operators)))\n      self._added_op_id_map.append([])\n"),
+    (TP, _MAPS_OLD[1], "    self._original_op_id_map[subgraph_id][original_op_id:] += num_ops_added\n"),
+    (TP, _MAPS_OLD[2], "    return int(np.searchsorted(self._original_op_id_map[subgraph_id], op_position))\n"),
+], (), 'one sorted array per subgraph and a binary search: the same maps', kind='twin')
